@@ -115,7 +115,7 @@ var structLines = []string{"a", "b|c", "ab", "##!=>", "##!=< x", "##!=> x", "##!
 // structLines2: the structural alphabet plus comments, blank and indented lines, a second stored name, the other
 // shell, and header lines (they apply to the whole file wherever they stand)
 var structLines2 = append(append([]string{}, structLines...), "##! c", "", "  a", "##!=< y", "##!=> y", "##!> cmdline windows", "##!^ p", "##!$ s", "##!+ i",
-	"##!> include incd", "##!> define d o", "{{d}}b", "a~", "b@")
+	"##!> include incd", "##!> define d [$o]", "{{d}}b", "a~", "b@")
 
 // wellFormedBody: balanced, names stored before use, markers only in assemble blocks,
 // cmdline blocks contain only words (entries) or nested blocks.
